@@ -86,6 +86,7 @@ class RealA:
         self.staged = {}
         self.path = None
         self.nfile = 0
+        self.last_tid = None
 
     def close(self):
         if self.s is not None:
@@ -143,6 +144,31 @@ class RealA:
                 return 'ok', mop
             except Exception as e:
                 return 'err:Other(%s)' % type(e).__name__, mop
+        if c == 'delete':
+            # deleteObject: an un-creation record (no pickle, zero back pointer); the oid keeps its records.
+            # The counter model is not concerned (the oid is already in the index): model line = no-op
+            o = int(t[1], 16)
+            if self.kind != 'file' or o not in self.cur or o in self.staged:
+                return 'ok', 'begin'
+            self.ensure_txn()
+            try:
+                s.deleteObject(p64(o), self.cur[o], self.txn)
+                self.staged[o] = self.tid
+            except Exception:
+                pass
+            return 'ok', 'begin'
+        if c == 'undolast':
+            # undo of the newest transaction: un-creation records for the objects it created
+            if self.kind != 'file' or self.last_tid is None or self.staged:
+                return 'ok', 'begin'
+            self.ensure_txn()
+            try:
+                _, oids = s.undo(base64.encodebytes(self.last_tid).rstrip(b'\n'), self.txn)
+                for oid in oids:
+                    self.staged[u64(oid)] = self.tid
+            except Exception:
+                pass
+            return 'ok', 'begin'
         if c == 'setmax':
             if self.kind != 'file':
                 return 'err:Unsupported', op
@@ -157,6 +183,7 @@ class RealA:
             if self.txn is not None:
                 s.tpc_vote(self.txn)
                 s.tpc_finish(self.txn)
+                self.last_tid = self.tid
                 self.cur.update(self.staged)
                 self.txn, self.staged = None, {}
             return 'ok', op
@@ -174,14 +201,27 @@ class RealA:
             keep = sorted({u64(r.oid) for tx in s.iterator() for r in tx}) if self.kind == 'mapping' \
                 else sorted(u64(k) for k in s._index.keys())
             self.cur = {o: tid for o, tid in self.cur.items() if o in keep}
+            self.last_tid = None
+            if self.path and os.path.exists(self.path + '.index.prev'):
+                os.remove(self.path + '.index.prev')       # a pre-pack index is another story (C09)
             return 'ok', '\n'.join(pre + ['pack ' + (','.join(hex8(o) for o in keep) or '-')])
         if c == 'reopen':
             if self.kind != 'file':
                 return 'err:Unsupported', op
             self.txn, self.staged = None, {}
             s.close()
-            if t[1:] == ['noindex'] and os.path.exists(self.path + '.index'):
-                os.remove(self.path + '.index')       # full scan (read_index) instead of _restore_index
+            ix, prev = self.path + '.index', self.path + '.index.prev'
+            newer = None
+            if os.path.exists(ix):
+                with open(ix, 'rb') as f:
+                    newer = f.read()
+            if t[1:] == ['noindex'] and os.path.exists(ix):
+                os.remove(ix)                         # full scan (read_index) instead of _restore_index
+            elif t[1:] == ['stale'] and os.path.exists(prev):
+                shutil.copyfile(prev, ix)             # index of an earlier close: the rest is scanned
+            if newer is not None:
+                with open(prev, 'wb') as f:
+                    f.write(newer)
             self.s = FileStorage(self.path)
             return 'ok', 'reopen'
         return 'bad-op', op
@@ -202,6 +242,10 @@ def run_real_a(ops, tmp):
             before = None
             if c == 'newoid':
                 before = present_oids(r.s) | set(r.staged)
+                newest = {}
+                for tx in r.s.iterator():
+                    for rec in tx:
+                        newest[u64(rec.oid)] = rec.data
             o, m = r.do(op)
             obs.append(o)
             mops.append(m)
@@ -210,6 +254,9 @@ def run_real_a(ops, tmp):
                 oid = int(o, 16)
                 if oid in issued:
                     bad = 'new_oid returned %s, already issued in this open session' % o
+                elif oid in before and oid in newest and newest[oid] is None:
+                    bad = ('new_oid returned %s, an un-created oid: its newest record is an un-creation / deletion, '
+                           'its revisions are present' % o)
                 elif oid in before:
                     bad = 'new_oid returned %s, an oid with a record present (or being written)' % o
                 issued.add(oid)
@@ -229,9 +276,20 @@ SPECIAL = [0, 1, 2, 3, 0xfe, 0xff, 0x100, 0x101, 0xffff, 0x10000, 0x303030303030
 def gen_a(rng, kind):
     ops = ['reset ' + kind]
     known = [0]
-    committed, staged = set(), set()
+    st = dict(committed=set(), staged=set(), deleted=set(), last=set())
     n = rng.choice([6, 12, 25, 40])
     big = rng.random() < 0.25           # this history goes up to the top of the oid space
+
+    def finish():
+        ops.append('finish')
+        if st['staged']:
+            st['committed'] |= st['staged']
+            st['last'] = set(st['staged'])
+            st['staged'] = set()
+
+    def reopen():
+        ops.append('reopen' + rng.choice([' noindex', ' noindex', ' stale', '']))
+        st['staged'] = set()
     for _ in range(n):
         r = rng.random()
         if r < 0.35:
@@ -244,28 +302,46 @@ def gen_a(rng, kind):
             c = 'restore' if (kind == 'file' and rng.random() < 0.4) else 'store'
             ops.append('%s %s' % (c, hex8(o)))
             known.append(o)
-            staged.add(o)
+            st['staged'].add(o)
         elif r < 0.70:
-            ops.append('finish' if staged else 'newoid')
-            committed |= staged
-            staged = set()
+            if st['staged']:
+                finish()
+            else:
+                ops.append('newoid')
         elif r < 0.76:
             ops.append('abort')
-            staged = set()
-        elif r < 0.80 and kind == 'file':
+            st['staged'] = set()
+        elif r < 0.79 and kind == 'file':
             ops.append('setmax %s' % hex8(rng.choice(SPECIAL[:14] + [rng.randrange(1, 5000)])))
+        elif r < 0.83 and kind == 'file' and (st['committed'] - {0}):
+            # un-create an object (preferably the one with the largest oid), or undo the newest transaction
+            # (un-creation records for what it created); then often reopen (scan / stale index) and allocate
+            finish()
+            cand = st['committed'] - {0}
+            if rng.random() < 0.75:
+                o = max(cand) if rng.random() < 0.6 else rng.choice(sorted(cand))
+                ops.append('delete %s' % hex8(o))
+                st['deleted'].add(o)
+                st['staged'].add(o)
+            else:
+                ops.append('undolast')
+                st['deleted'] |= st['last']
+                st['staged'] |= st['last']
+            if rng.random() < 0.6:
+                finish()
+                reopen()
+                ops.append('newoid')
         elif r < 0.90:
             # pack with gc: the root keeps a random subset of the committed objects
-            committed |= staged
-            cand = sorted(committed - {0})
+            finish()
+            cand = sorted(st['committed'] - {0} - st['deleted'])
             refs = sorted(rng.sample(cand, min(len(cand), rng.choice([0, 1, 2, 4]))))
             ops.append('storeroot ' + (','.join(hex8(x) for x in refs) or '-'))
             ops.append('finish')
             ops.append('pack')
-            committed, staged = {0} | set(refs), set()
+            st.update(committed={0} | set(refs), staged=set(), deleted=set(), last=set())
         elif kind == 'file':
-            ops.append('reopen' + (' noindex' if rng.random() < 0.5 else ''))
-            staged = set()
+            reopen()
         else:
             ops.append('newoid')
     ops += ['newoid', 'newoid']
@@ -767,7 +843,8 @@ def main(argv=None):
         if any(v):
             sm = shrink_a(ck.tmp, ops) or (ops, obs, [x for x in v if x][0])
             kind = ops[0].split()[1]
-            ck.violation('C20:%s-new-oid-collision' % kind if 'new_oid returned' in sm[2] else 'C20:%s-failure' % kind,
+            ck.violation('C20:file-reopen-uncreated-oid-reissued' if 'an un-created oid' in sm[2] else
+                         'C20:%s-new-oid-collision' % kind if 'new_oid returned' in sm[2] else 'C20:%s-failure' % kind,
                          sm[2], dict(section='A', ops=sm[0], real=sm[1]))
         elif obs != mo:
             j = [k for k in range(len(ops)) if obs[k] != mo[k]][0]
